@@ -138,7 +138,7 @@ func SymmetricEquality(p *core.Program, r *core.Report, rule string) {
 			ast.Inspect(fd.Decl.Body, func(nd ast.Node) bool {
 				switch x := nd.(type) {
 				case *ast.CallExpr:
-					if fn := core.Callee(info, x); fn != nil && fn.Pkg() != nil && fn.Pkg().Path() == "reflect" && fn.Name() == "DeepEqual" && len(x.Args) == 2 {
+					if fn := core.Callee(info, x); fn != nil && fn.Pkg() != nil && fn.Pkg().Path() == "reflect" && core.RefName(fn) == "DeepEqual" && len(x.Args) == 2 {
 						if (onField(x.Args[0], recv) && onField(x.Args[1], other)) || (onField(x.Args[1], recv) && onField(x.Args[0], other)) {
 							deep = true
 						}
@@ -174,8 +174,8 @@ func SymmetricEquality(p *core.Program, r *core.Report, rule string) {
 				return true
 			})
 			ok := deep || (lenCmp && (ranged[recv] || ranged[other]) && missingIsUnequal) || (ranged[recv] && ranged[other] && missingIsUnequal)
-			r.Check(ok, rule, fmt.Sprintf("%s: %s is compared in both directions", fd.Key(), f.Name()), p.Pos(fd.Decl.Pos()), "DeepEqual, or equal lengths + lookup of every key, a missing key meaning unequal",
-				fmt.Sprintf("the comparison of %s is one-sided (no length comparison and no second loop, or a missing key is tolerated): a set that has an additional protocol/name compares equal to one that lacks it, so diff reports a real change as unchanged and A.Equal(B) != B.Equal(A)", f.Name()))
+			r.Check(ok, rule, fmt.Sprintf("%s: %s is compared in both directions", fd.Key(), core.RefName(f)), p.Pos(fd.Decl.Pos()), "DeepEqual, or equal lengths + lookup of every key, a missing key meaning unequal",
+				fmt.Sprintf("the comparison of %s is one-sided (no length comparison and no second loop, or a missing key is tolerated): a set that has an additional protocol/name compares equal to one that lacks it, so diff reports a real change as unchanged and A.Equal(B) != B.Equal(A)", core.RefName(f)))
 		}
 	}
 	r.RuleCounts[rule] = n
@@ -211,7 +211,7 @@ func ClusterWideCondition(p *core.Program, r *core.Report, rule string) {
 			return
 		}
 		fn := core.Callee(info, c)
-		if fn == nil || fn.Name() != "updateNetworkPolicyExposureClusterWideConns" || len(c.Args) != 4 {
+		if fn == nil || core.RefName(fn) != "updateNetworkPolicyExposureClusterWideConns" || len(c.Args) != 4 {
 			return
 		}
 		n++
